@@ -103,6 +103,25 @@ func c10invalid(f QFrame, which string) QFrame {
 		return f.Slice(a, b)
 	case "copy_unknown":
 		return f.Copy("x", "zz")
+	case "copy_self_unknown":
+		return f.Copy("zz", "zz")
+	case "apply_copy_self_unknown":
+		return f.Apply(Instruction{Fn: types.ColumnName("zz"), DstCol: "zz"})
+	case "eval_val_unknown_self":
+		return f.Eval("zz", Val(types.ColumnName("zz")))
+	case "or_all_rows_then_invalid":
+		return f.Filter(Or(And(Filter{Column: "a", Comparator: "isnotnull"}), Filter{Column: "zz", Comparator: "=", Arg: 1}))
+	case "or_complement_then_invalid":
+		lo := Filter{Column: "a", Comparator: ">", Arg: vx.Int()}
+		return f.Filter(Or(And(lo), Not(And(lo)), Filter{Column: "a", Comparator: "~~", Arg: 1}))
+	case "and_none_then_invalid":
+		return f.Filter(And(Filter{Column: "a", Comparator: "isnull"}, Filter{Column: "zz", Comparator: "=", Arg: 1}))
+	case "empty_frame_invalid_filter":
+		return f.Slice(0, 0).Filter(Or(And(Filter{Column: "a", Comparator: "isnotnull"}), Filter{Column: "zz", Comparator: "=", Arg: 1}))
+	case "empty_frame_invalid_apply":
+		return f.Slice(0, 0).Apply(Instruction{Fn: func(x float64) int { c10cb(); return 0 }, DstCol: "z", SrcCol1: "a"})
+	case "empty_frame_invalid_sort":
+		return f.Slice(0, 0).Sort(Order{Column: "zz"})
 	case "copy_badname":
 		return f.Copy("'quoted'", "a")
 	case "apply_unknown_src":
